@@ -16,9 +16,17 @@ RULE = ("item = (cdef text of 0..6 random declarations with non-ASCII comments, 
         "lines with non-ASCII text / LF, CRLF, CR or mixed line ends / with or without final "
         "newline, module name with 0..3 packages) x subcommand (read-sources; exec-python with the "
         "FFI bound directly, under a --ffi-var name, or through a def / lambda / callable object / "
-        "FFI subclass, decoy FFI objects, prelude as literal / sibling file through __file__ / "
-        "helper module through sys.path, optional embedding, __main__ block writing a marker) x "
-        "relative/absolute/non-ASCII paths x pre-existing longer output file; each item is run "
+        "FFI subclass / functools.partial / bound method / class with __new__ / a factory whose "
+        "second call returns a decoy / an FFI instance that is itself callable, decoy FFI objects, "
+        "prelude as literal / sibling file through __file__ / helper module through sys.path imported "
+        "at module level or inside the factory, script "
+        "in the working directory or in a subdirectory with a same-named decoy helper module in the "
+        "working directory, optional embedding, __main__ block writing a marker) x "
+        "relative/absolute/non-ASCII paths x output names containing '-' (incl. a file named '-' "
+        "given as './-') x module names with characters outside identifiers x read-sources inputs "
+        "with identical content x output path absent / holding stale longer text / the reference "
+        "itself / its CRLF twin / same-size different text / a prefix / the reference plus a tail; "
+        "each item is run "
         "with output to a file and to '-', in-process through run(argv) and runpy -m, and a sample "
         "as subprocesses through the console script and python -m, in 4 locale environments; "
         "distinct = (environment, item, invocation, output kind); non-trivial = the reference "
@@ -30,6 +38,9 @@ ASSUMPTIONS = [
     "encodable in an ASCII locale) the property demands nothing; such runs are counted as vacuous",
     "only the bytes written to the output (file or stdout) are compared; what a file-output run "
     "prints on stdout is not part of the property",
+    "'the FFI the script binds' is what the name is bound to when the script is executed the way "
+    "Python runs it (its own directory first on sys.path, also while a factory is being called): an "
+    "FFI instance is taken as it is even if it is callable, any other callable is called exactly once",
     "in-process runs replace only fd 1; the process-level matrix (console script / python -m) is "
     "covered by the sampled subprocess runs",
 ]
@@ -118,7 +129,15 @@ def make_prelude(rnd, tag):
 
 NAMES = ['m', '_m', 'pkg.m', 'a.b._c', 'x1.y2.z3.w4', 'squared._squared', 'Mod_9',
          'averyveryveryveryveryverylongpackagename.and_a_long_module_name_too']
+ODD_NAMES = ['my-mod', ' m', 'pkg.m ', 'M.m', 'pkg/m', 'a..b', '9m', 'm.', 'pkg.my-mod', 'm\t']
 VARS = ['my_ffi', '_b', 'ffi2', 'make_ffi', 'FFIBUILDER', 'ffibuilder_', 'bâtisseur']
+
+
+PREEXISTING = ['stale-long', 'identical', 'crlf-twin', 'same-size', 'prefix', 'ref-plus-tail']
+
+
+DECOY3 = ['_decoy3 = FFI()', "_decoy3.cdef('int decoy3(void);')",
+          "_decoy3.set_source('decoy3.mod', '/* decoy3 */')"]
 
 
 def nl(text):
@@ -132,13 +151,20 @@ def make_item(seed):
     it['cdef'] = make_cdef(rnd, tag)
     it['prelude'] = make_prelude(rnd, tag)
     it['name'] = rnd.choice(NAMES) if rnd.random() < 0.93 else rnd.choice(['pkg.mödul', 'mé'])
+    it['odd_name'] = rnd.random() < 0.08
+    if it['odd_name']:                      # not an identifier path: the name goes through as it is
+        it['name'] = rnd.choice(ODD_NAMES)
     it['sub'] = sub = rnd.choice(['read-sources', 'exec-python'])
     it['abs'] = rnd.random() < 0.3
-    it['out'] = rnd.choice(['out.c', 'out.c', 'gen/_m.c', 'généré.c', 'o u t.cpp'])
-    if '/' in it['out']:
+    it['out'] = rnd.choice(['out.c', 'out.c', 'gen/_m.c', 'généré.c', 'o u t.cpp', 'my-out.c',
+                            './-', 'out-', 'gen/-x-.c'])
+    if os.path.dirname(it['out']) not in ('', '.'):
         it['dirs'].append(os.path.dirname(it['out']))
-    it['preexisting'] = rnd.random() < 0.3
+    it['preexisting'] = rnd.choice([None] * 7 + ['stale-long', 'stale-long'] + PREEXISTING[1:])
     if sub == 'read-sources':
+        it['twin_inputs'] = rnd.random() < 0.05
+        if it['twin_inputs']:                      # two different files with the same content
+            it['cdef'] = it['prelude'] = rnd.choice(['', '/* %s */\n' % rtext(rnd), '\n'])
         if rnd.random() < 0.25:                    # CRLF cdef file
             it['cdef'] = it['cdef'].replace('\n', '\r\n')
         cn, pn = rnd.choice([('x.cdef', 'x.c'), ('défs.txt', 'prélude.h'),
@@ -155,7 +181,7 @@ def make_item(seed):
         return it
     # ---- exec-python: write the build script
     style = rnd.choice(['direct', 'direct', 'var', 'var', 'def', 'def', 'lambda', 'obj',
-                        'subclass', 'class'])
+                        'subclass', 'class', 'callable-ffi', 'once', 'partial', 'method', 'new'])
     it['style'] = style
     var = 'ffibuilder' if style == 'direct' or rnd.random() < 0.15 else rnd.choice(VARS)
     it['var'] = var
@@ -168,13 +194,25 @@ def make_item(seed):
          "if _m: open(os.path.join(_here, 'ORIGIN'), 'w').write(_m.__file__)"]
     if pep263:
         L.insert(0, '# -*- coding: latin-1 -*-')
+    sdir = rnd.choice(['', '', '', 'bld/', 'sub dir/', 'répertoire/in/'])
+    it['scriptdir'] = sdir
+    if sdir:
+        it['dirs'].append(sdir.rstrip('/'))
+    it['decoy_helper'] = False
     if how == 'sibling':
-        it['files']['prelude_in.c'] = it['prelude']
+        it['files'][sdir + 'prelude_in.c'] = it['prelude']
         L.append("with open(os.path.join(_here, 'prelude_in.c'), encoding='utf-8', newline='') as _f:")
         L.append('    PRELUDE = _f.read()')
     elif how == 'helper':
-        it['files']['c24h_%s.py' % tag] = '# helper\nPRELUDE = %r\n' % (it['prelude'],)
-        L.append('from c24h_%s import PRELUDE' % tag)
+        it['files'][sdir + 'c24h_%s.py' % tag] = '# helper\nPRELUDE = %r\n' % (it['prelude'],)
+        if sdir and rnd.random() < 0.6:      # same module name in the working directory
+            it['decoy_helper'] = True
+            it['files']['c24h_%s.py' % tag] = '# decoy helper\nPRELUDE = "/* decoy helper */"\n'
+        # the import is either at module level or the first statement of the code that builds the
+        # FFI (inside the factory, for the styles that have one)
+        it['lazy_import'] = rnd.random() < 0.5
+        if not it['lazy_import']:
+            L.append('from c24h_%s import PRELUDE' % tag)
     else:
         L.append('PRELUDE = %r' % (it['prelude'],))
     it['prelude_from'] = how
@@ -186,6 +224,8 @@ def make_item(seed):
     def body(obj, ind):
         b = ['%s.cdef(%r)' % (obj, it['cdef']),
              '%s.set_source(%r, PRELUDE%s)' % (obj, it['name'], kw)]
+        if it.get('lazy_import'):
+            b.insert(0, 'from c24h_%s import PRELUDE' % tag)
         if embed:
             b.insert(0, '%s.embedding_api("int %s_emb(int);")' % (obj, tag))
             b.append('%s.embedding_init_code(%r)' % (
@@ -203,9 +243,25 @@ def make_item(seed):
                                                '        return _f', '%s = Maker()' % var]
     elif style == 'subclass':
         L += ['class MyFFI(FFI):', '    pass', '%s = MyFFI()' % var] + body(var, '')
-    else:   # the name is bound to a class; calling it gives the FFI
+    elif style == 'class':   # the name is bound to a class; calling it gives the FFI
         L += ['class %s(FFI):' % var, '    def __init__(self):', '        FFI.__init__(self)'] + \
             body('self', '        ')
+    elif style == 'callable-ffi':   # an FFI instance that happens to be callable is bound directly
+        L += DECOY3 + ['class CallableFFI(FFI):', '    def __call__(self):', '        return _decoy3',
+                       '%s = CallableFFI()' % var] + body(var, '')
+    elif style == 'once':           # a factory with state: only its first call gives the FFI
+        L += ['_f = FFI()'] + body('_f', '') + DECOY3 + [
+            '_calls = []', 'def %s():' % var, '    _calls.append(1)',
+            '    return _f if len(_calls) == 1 else _decoy3']
+    elif style == 'partial':
+        L += ['import functools', 'def _build(b):'] + body('b', '    ') + [
+            '    return b', '%s = functools.partial(_build, FFI())' % var]
+    elif style == 'method':
+        L += ['class _Factory(object):', '    def make(self):', '        b = FFI()'] + \
+            body('b', '        ') + ['        return b', '%s = _Factory().make' % var]
+    else:   # 'new': a class that is not an FFI subclass; calling it gives the FFI
+        L += ['class %s(object):' % var, '    def __new__(cls):', '        b = FFI()'] + \
+            body('b', '        ') + ['        return b']
     if var != 'ffibuilder' and rnd.random() < 0.6:     # decoy under the default name
         L += ['ffibuilder = FFI()', "ffibuilder.cdef('int decoy(void);')",
               "ffibuilder.set_source('decoy.mod', '/* decoy */')"]
@@ -215,7 +271,7 @@ def make_item(seed):
     L += ['if __name__ == %s:' % rnd.choice(['"__main__"', "'__main__'"]),
           "    open(os.path.join(_here, 'MAIN_RAN'), 'w').write(__name__)"]
     src = rnd.choice(['\n', '\n', '\n', '\r\n']).join(L) + '\n'
-    pn = rnd.choice(['build.py', '_squared_build.py', 'construït.py', 'b d.py'])
+    pn = sdir + rnd.choice(['build.py', '_squared_build.py', 'construït.py', 'b d.py'])
     it['files'][pn] = src
     if pep263:
         it['latin1'] = pn
@@ -274,16 +330,45 @@ def materialize(it, d):
             f.write(data)
 
 
-def prepare_output(it, d):
+def marker(it, d, m):
+    """path of a marker file that the build script writes next to itself"""
+    return B(d, it.get('scriptdir', '') + m)
+
+
+def preexisting_kind(it, ref):
+    """what the output path holds before the run (most kinds are derived from the reference bytes)"""
+    kind = it['preexisting']
+    if kind and kind != 'stale-long' and not ref.get('bytes'):
+        kind = 'stale-long'
+    return kind
+
+
+def preexisting_bytes(kind, ref):
+    refb = ref.get('bytes')
+    if kind == 'identical':
+        return refb
+    if kind == 'crlf-twin':                 # reads back equal to the reference in text mode
+        return refb.replace(b'\r\n', b'\n').replace(b'\n', b'\r\n')
+    if kind == 'same-size':
+        return refb.swapcase()
+    if kind == 'prefix':
+        return refb[:len(refb) * 2 // 3]
+    if kind == 'ref-plus-tail':
+        return refb + b'/* stale tail \xc3\xa9 */\n' * 40
+    return b'/* stale \xc3\xa9 */\n' * 3000
+
+
+def prepare_output(it, d, ref):
     p = B(d, it['out'])
-    if os.path.exists(p):
+    if os.path.lexists(p):
         os.unlink(p)
-    if it['preexisting']:
+    kind = preexisting_kind(it, ref)
+    if kind:
         with open(p, 'wb') as f:
-            f.write(b'/* stale \xc3\xa9 */\n' * 3000)
+            f.write(preexisting_bytes(kind, ref))
     for m in ('MAIN_RAN', 'ORIGIN'):
-        if os.path.exists(B(d, m)):
-            os.unlink(B(d, m))
+        if os.path.exists(marker(it, d, m)):
+            os.unlink(marker(it, d, m))
 
 
 # ---------------------------------------------------------------------------
@@ -305,11 +390,11 @@ def judge_run(rep, env, it, d, how, out, status, got, ref, err=''):
              sample={'env': env, 'how': how, 'out': out, 'item': describe(it)})
     what = '[%s, %s, env %s] %s' % (how, out, env, describe(it))
     if sub == 'exec-python':
-        if os.path.exists(B(d, 'MAIN_RAN')):
+        if os.path.exists(marker(it, d, 'MAIN_RAN')):
             rep.bad('exec-python:main-block-ran', 'the __main__ block of the script ran ' + what,
                     it['seed'])
-        if how.startswith('proc') and os.path.exists(B(d, 'ORIGIN')):
-            with open(B(d, 'ORIGIN')) as f:
+        if how.startswith('proc') and os.path.exists(marker(it, d, 'ORIGIN')):
+            with open(marker(it, d, 'ORIGIN')) as f:
                 org = f.read()
             if not org.startswith(os.path.join(build.REPO, 'src') + os.sep):
                 rep.bad('harness:wrong-cffi', 'the command line ran %s' % org, it['seed'])
@@ -324,6 +409,23 @@ def judge_run(rep, env, it, d, how, out, status, got, ref, err=''):
         rep.stat('input_files_with_CR')
     if any(ord(c) > 127 for c in it['prelude'] + it['name']):
         rep.stat('nonascii_in_output')
+    if out == 'file':
+        rep.stat('preexisting_%s' % (preexisting_kind(it, ref) or 'absent'))
+        if '-' in it['out']:
+            rep.stat('output_name_with_dash')
+        if os.path.basename(it['out']) == '-':
+            rep.stat('output_file_named_dash')
+    if it.get('odd_name'):
+        rep.stat('module_name_not_identifier_path')
+    if it.get('twin_inputs'):
+        rep.stat('read_sources_inputs_with_identical_content')
+    if it.get('scriptdir'):
+        rep.stat('script_in_subdirectory')
+        rep.stat('script_in_subdirectory:prelude_%s' % it['prelude_from'])
+    if it.get('decoy_helper'):
+        rep.stat('decoy_helper_module_in_cwd')
+    if it.get('lazy_import') and it['style'] in ('def', 'class', 'partial', 'method', 'new'):
+        rep.stat('helper_imported_inside_factory')
     if sub == 'exec-python' and it['script_kind'] != 'utf8':
         sub += '(%s)' % it['script_kind']
     tag = '%s:%s' % (sub, out)
@@ -392,11 +494,11 @@ def reference(it, d):
                 ffi.cdef(it['ref']['cdef'])
                 ffi.set_source(it['name'], it['ref']['prelude'])
             else:
-                path = os.path.join(d, it['script'])
+                path = os.fsdecode(B(d, it['script']))         # as a process receives it
                 with open(B(d, it['script']), 'rb') as f:
                     code = compile(f.read(), path, 'exec')     # Python's own source decoding
                 g = {'__name__': 'c24_reference', '__file__': path}
-                sys.path.insert(0, d)
+                sys.path.insert(0, os.path.dirname(path))      # as when Python runs the script
                 exec(code, g, g)
                 ffi = g[it['var']]
                 if not isinstance(ffi, FFI):
@@ -407,6 +509,13 @@ def reference(it, d):
         return {'err': '%s: %s' % (type(e).__name__, ascii(str(e))[:300])}
     finally:
         sys.path[:] = old
+        forget_helpers()
+
+
+def forget_helpers():
+    """every execution of a build script imports its helper module afresh"""
+    for k in [k for k in sys.modules if k.startswith('c24h_')]:
+        del sys.modules[k]
 
 
 def run_inproc(how, argv, capture):
@@ -433,6 +542,7 @@ def run_inproc(how, argv, capture):
         status, err = 1, 'flush: %r' % (e,)
     finally:
         sys.argv = old_argv
+        forget_helpers()
     return (0 if status is None else status), err
 
 
@@ -460,7 +570,7 @@ def worker():
             ref = reference(it, d)
             order = ['inproc-run', 'inproc-m'] if n % 2 else ['inproc-m', 'inproc-run']
             for how, out in zip(order, ['file', 'stdout']):
-                prepare_output(it, d)
+                prepare_output(it, d, ref)
                 cap = os.path.join(d, 'STDOUT.bin')
                 status, err = run_inproc(how, argv_for(it, d, out), cap)
                 got = read_bytes(cap if out == 'stdout' else B(d, it['out']))
@@ -540,7 +650,7 @@ def child_case(st, case):
         ref = {'err': r['err']} if 'err' in r else {'bytes': read_bytes(r['file'])}
         for j in range(case['runs']):
             how, out = COMBOS[(case.get('rot', 0) + k + j) % 4]
-            prepare_output(it, d)
+            prepare_output(it, d, ref)
             cmd = [st['script']] if how == 'proc-script' else [build.PY, '-m', 'cffi.gen_src']
             try:
                 p = subprocess.run(cmd + argv_for(it, d, out), env=env, cwd=d, timeout=120,
